@@ -36,7 +36,7 @@ def main(tier, seed):
                 stats["outcomes"][k] = stats["outcomes"].get(k, 0) + 1
     run.notes["histories"] = stats
     if stats["clears"] < 10 or stats["runs"] < 300:
-        raise ToolError("too few events: %s" % stats)
+        run.thin_corpus("too few events: %s" % stats)
     validate_traces(run, "VmLifeTrace.tla", dict(Progs='{"p"}'), ["Inv"], files, "life-trace", timeout=1800,
                     site_of=lambda m: "%s:%s" % (m.get("event", {}).get("e"), m.get("event", {}).get("p", "")))
     run.evaluations += stats["runs"] + stats["clears"]
